@@ -192,7 +192,7 @@ SHAPES = ['T M'] * 6 + ['M T'] * 3 + ['T M T'] * 6 + ['T M M'] * 4 + ['T T M'] *
          ['D M', 'D M', 'D M T', 'T M D', 'D X', 'D T', 'D']
 JOINS = ['JOIN'] * 6 + ['LEFT JOIN'] * 3 + ['INNER JOIN', 'RIGHT JOIN', 'FULL JOIN']
 WRAPS = ['plain'] * 12 + ['union', 'union', 'insert', 'insert-paren', 'create', 'create-replace', 'update-from', 'nested',
-                           'nested', 'cte', 'where-in', 'delete-in', 'target-sub']
+                           'nested', 'cte', 'cte2', 'where-in', 'delete-in', 'target-sub']
 
 
 class ModelQueryGen:
@@ -579,6 +579,16 @@ def dml_wrap_text(g, sel, wrap):
     if wrap == 'cte':
         w = g.pick(['', ' WHERE w.a > 1', ' LIMIT 2'])
         return f'WITH w0 AS ({sel}) SELECT * FROM w0 AS w{w}'
+    if wrap == 'cte2':
+        # two CTEs, the main query reads the one that is planned first: the other one (unused, or read by a
+        #  sub-select only) must not end up as the plan's answer
+        t = g.pick(['t3', 't2', 't4'])
+        other = f'SELECT * FROM {g.pick(g.view["tables"][t])}'
+        main = g.pick(['SELECT * FROM w0', 'SELECT * FROM w0 AS w WHERE w.a > 1',
+                       'SELECT * FROM w0 WHERE a IN (SELECT a FROM w1)',
+                       'SELECT * FROM (SELECT * FROM w0) AS s WHERE a IN (SELECT a FROM w1)',
+                       'SELECT * FROM w0 JOIN w1 ON w0.a = w1.a'])
+        return f'WITH w0 AS ({sel}), w1 AS ({other}) {main}'
     if wrap == 'where-in':
         t = g.pick(['t3', 't2'])
         return f'SELECT * FROM {g.pick(g.view["tables"][t])} WHERE a IN ({sel})'
@@ -681,7 +691,7 @@ FIXED_CATALOGS = {
 }
 FIXED_VARIANTS = ['bare', 'part', 'where', 'where-part']
 ALL_WRAPS = ['plain', 'union', 'insert', 'insert-paren', 'create', 'create-replace', 'update-from', 'nested', 'cte',
-             'where-in', 'delete-in', 'target-sub']
+             'where-in', 'delete-in', 'target-sub', 'cte2']
 _T = ['int1.t1', 'int2.t3', 'int1.t2', 'int2.t4']
 _M = ['proj.m1', 'proj.m2']
 _X = ['proj.ts1', 'proj.ts0', 'proj.ts2']
